@@ -355,9 +355,13 @@ MUTANTS = [
      "                # reread is pretty low.\n\n                pass"),
     # (dropping the _added loop of tpc_abort is unobservable: abort()
     # runs first for a connection that has not voted and empties _added)
+    # (both tests: since 901b159 the primary also looks at every connection
+    # of its group, itself included)
     ('C11', 'close-while-joined-allowed', CN,
-     "        if not self._needs_to_join:\n            # We're currently joined to a transaction.\n            raise ConnectionStateError(",
-     "        if False:\n            # We're currently joined to a transaction.\n            raise ConnectionStateError("),
+     ("        if not self._needs_to_join:\n            # We're currently joined to a transaction.\n            raise ConnectionStateError(",
+      "                if not connection._needs_to_join:\n                    raise ConnectionStateError("),
+     ("        if False:\n            # We're currently joined to a transaction.\n            raise ConnectionStateError(",
+      "                if False:\n                    raise ConnectionStateError(")),
     ('C11', 'invalidate-creating-keeps-owner', CN,
      "                if o._p_changed:\n                    o._p_changed = False\n                del o._p_jar\n                del o._p_oid\n\n    def tpc_vote",
      "                if o._p_changed:\n                    o._p_changed = False\n\n    def tpc_vote"),
